@@ -2,6 +2,7 @@ import MCHap.Properties.C20
 #print axioms MCHap.C20.pos_spec
 #print axioms MCHap.C20.gt_projection
 #print axioms MCHap.C20.block_gts
+#print axioms MCHap.C20.block_alleles_ac
 #print axioms MCHap.C20.numbering_first_appearance
 #print axioms MCHap.C20.alleles_first_appearance
 #print axioms MCHap.C20.marginal_spec
@@ -9,6 +10,8 @@ import MCHap.Properties.C20
 #print axioms MCHap.C20.acp_marginal
 #print axioms MCHap.C20.acp_sums_to_ploidy
 #print axioms MCHap.C20.block_no_snv
-#print axioms MCHap.C20.block_total_partial
-#print axioms MCHap.C20.no_alt_crash
-#print axioms MCHap.C20.monomorphic_crash
+#print axioms MCHap.C20.block_total
+#print axioms MCHap.C20.block_line_shape
+#print axioms MCHap.C20.monomorphic_site_line
+#print axioms MCHap.C20.no_alt_all_monomorphic
+#print axioms MCHap.C20.missing_counts_are_missing
